@@ -78,13 +78,13 @@ Section WithFloat.
 Context {F : Type}.
 Variable pf : list N -> option F.
 
-Lemma psv_msr t st : msr (snd (@parse_string_value F t st)) = msr st.
+Lemma psv_msr t st : msr (snd (parse_string_value t st)) = msr st.
 Proof. unfold parse_string_value. destruct (go_unquote (plit t)); reflexivity. Qed.
 
 Lemma pfv_msr t st : msr (snd (parse_float_value pf t st)) = msr st.
 Proof. unfold parse_float_value. destruct (pf (plit t)); reflexivity. Qed.
 
-Lemma psv_jail t st : jail (snd (@parse_string_value F t st)) = false -> jail st = false.
+Lemma psv_jail t st : jail (snd (parse_string_value t st)) = false -> jail st = false.
 Proof. unfold parse_string_value. destruct (go_unquote (plit t)); cbn; congruence. Qed.
 
 (** ** parseIdentList *)
@@ -142,7 +142,9 @@ Proof.
     destruct (pty (cur st)) eqn:Ety.
     + (* keyword *)
       assert (Hne : is_eof (cur st) = false) by (apply (pty_not_eof _ _ Ety); discriminate).
-      destruct (list_N_eqb (plit (cur st)) lit_true || list_N_eqb (plit (cur st)) lit_false).
+      destruct (list_N_eqb (plit (cur st)) lit_true).
+      { eexists _, _. split; [reflexivity|]. apply Q_consumed; [exact Hne|lia]. }
+      destruct (list_N_eqb (plit (cur st)) lit_false).
       { eexists _, _. split; [reflexivity|]. apply Q_consumed; [exact Hne|lia]. }
       destruct (list_N_eqb (plit (cur st)) lit_null).
       { eexists _, _. split; [reflexivity|]. apply Q_consumed; [exact Hne|lia]. }
@@ -200,9 +202,13 @@ Proof.
     { apply orb_true_iff in Ek as [Ek|Ek]; apply (see_not_eof _ _ Ek); discriminate. }
     pose proof (msr_next_lt st Hne) as Hlt.
     set (kvst := if ttype_eqb (pty (cur st)) TString
-                 then parse_string_value (cur st) (p_next st) else (BNone, p_next st)).
+                 then let '(bs, st2) := parse_string_value (cur st) (p_next st) in
+                      (KStr (plit (cur st)) bs, st2)
+                 else (KIdent (plit (cur st)), p_next st)).
     assert (Hk : msr (snd kvst) = msr (p_next st)).
-    { subst kvst. destruct (ttype_eqb (pty (cur st)) TString); [apply psv_msr|reflexivity]. }
+    { subst kvst. destruct (ttype_eqb (pty (cur st)) TString); [|reflexivity].
+      pose proof (psv_msr (cur st) (p_next st)) as Hm.
+      destruct (parse_string_value (cur st) (p_next st)). exact Hm. }
     destruct kvst as [kv st2]. cbn [snd] in Hk.
     pose proof (expect_op_le [58%N] st2) as Hc.
     destruct (IH1 (snd (expect_op [58%N] st2)) ltac:(lia)) as (v & st4 & E & Hq & _).
@@ -213,7 +219,7 @@ Proof.
     { subst st5. destruct (see_op [[44%N]] st4); [apply msr_next_le|].
       destruct (negb (see_op [[125%N]] st4)); [apply expect_op_le|lia]. }
     destruct (jail st5); [eexists _, _; split; [reflexivity|lia]|].
-    destruct (IH2 st5 (acc ++ [(mkKey (pty (cur st)) (plit (cur st)) kv, v)]) ltac:(lia))
+    destruct (IH2 st5 (acc ++ [(kv, v)]) ltac:(lia))
       as (es & st' & E2 & Hle).
     exists es, st'. split; [exact E2|lia].
   - (* parse_list_entries *)
@@ -298,7 +304,7 @@ Qed.
 (** ** parseSeries *)
 
 Lemma parse_type_name_le st :
-  let '(nm, st1) := @parse_type_name F st in
+  let '(nm, st1) := parse_type_name st in
   msr st1 <= msr st /\
   (nm <> None -> is_eof (cur st) = false -> msr st1 < msr st) /\
   (nm = None -> st1 = p_add EExpectTypeName st).
